@@ -43,6 +43,10 @@ type cfg struct {
 	// LibHook: the next segment's start is chosen by the library's own
 	// MakeGeneralBlockHook (wrapped by the logging hook), not by the harness
 	LibHook bool
+	// HandlerRemoved: after the history syncs the publisher's handler is
+	// removed (Subscriber.RemoveHandler, what the idle clean-up also does);
+	// the latest-synced value is documented to survive that.
+	HandlerRemoved bool
 }
 
 func (c cfg) key() string {
@@ -52,6 +56,9 @@ func (c cfg) key() string {
 	}
 	if c.LibHook {
 		k += "|library-general-hook"
+	}
+	if c.HandlerRemoved {
+		k += "|handler-removed-after-the-history"
 	}
 	return k
 }
@@ -210,6 +217,11 @@ func run(t *testing.T, c cfg) (o obs) {
 				panic(fmt.Sprintf("prior sync to the latest-synced ad failed: %v", err))
 			}
 			synctest.Wait()
+		}
+		if c.HandlerRemoved {
+			if !sub.RemoveHandler(id.ID) {
+				panic("RemoveHandler: no handler although the publisher was synced")
+			}
 		}
 		if c.Prior > 0 || c.LatestVia == "sync" {
 			w.ResetHooks()
@@ -427,7 +439,7 @@ func depthValues(L int) []int64 {
 
 func TestCheck(t *testing.T) {
 	r := vp.New("C01", "model_checking",
-		"configurations: chain length L x entry point (queried head h, explicit head h, announce of h, for every h) x latest-sync state (none, every index, via SetLatestSync or WithLastKnownSync) x stop (none, every index, foreign CID) x resync x depth limits (subscriber, first-sync, per-call; each in {unset, -1, 1, L-1, L, L+1}, at most two set at once) x segment size (disabled, 1..L+1, subscriber-wide or per-call) x every subset of pre-stored blocks, factored as A(what) x B(depth) with two 'how' settings, A x C(how) with two depth settings; plus a boundary sweep on chains of 5-6 (quick) / 5-8 (thorough) ads: every segment size 1..L+1 x every depth limit 1..L+1 of each kind x stop {none, oldest, second-oldest} x entry point x {the harness's own hook, the library's MakeGeneralBlockHook} choosing the next segment; entries chains: M x start x {SyncEntries, SyncOneEntry, SyncHAMTEntries} x depth limits x segment size x pre-stored subsets; the all-links entry point also on a DAG with fan-out (2 spine blocks with 2 leaves each) x 5 segment sizes x all 64 pre-stored subsets; two entries syncs in a row on one subscriber, the first with a per-call depth limit, the second without or with another one. Every configuration runs the real subscriber and publisher and is compared with an integer reference model. states = distinct base configurations; transitions = hook calls + requests observed; traces = executions.",
+		"configurations: chain length L x entry point (queried head h, explicit head h, announce of h, for every h) x latest-sync state (none, every index, via SetLatestSync or WithLastKnownSync) x stop (none, every index, foreign CID) x resync x depth limits (subscriber, first-sync, per-call; each in {unset, -1, 1, L-1, L, L+1}, at most two set at once) x segment size (disabled, 1..L+1, subscriber-wide or per-call) x every subset of pre-stored blocks, factored as A(what) x B(depth) with two 'how' settings, A x C(how) with two depth settings; plus a boundary sweep on chains of 5-6 (quick) / 5-8 (thorough) ads: every segment size 1..L+1 x every depth limit 1..L+1 of each kind x stop {none, oldest, second-oldest} x entry point x {the harness's own hook, the library's MakeGeneralBlockHook} choosing the next segment; entries chains: M x start x {SyncEntries, SyncOneEntry, SyncHAMTEntries} x depth limits x segment size x pre-stored subsets; the all-links entry point also on a DAG with fan-out (2 spine blocks with 2 leaves each) x 5 segment sizes x all 64 pre-stored subsets; histories of real syncs on the subscriber (an older ad synced with an explicit head, the latest-synced value reached by a sync, the publisher's handler removed with RemoveHandler after that) before the observed sync; two entries syncs in a row on one subscriber, the first with a per-call depth limit, the second without or with another one. Every configuration runs the real subscriber and publisher and is compared with an integer reference model. states = distinct base configurations; transitions = hook calls + requests observed; traces = executions.",
 		"reference model is the oracle (trusted; written from the statement)",
 		"two combinations whose depth limit the documentation leaves open (resync without stop on a known publisher with FirstSyncDepth set; explicit stop on a never-synced publisher with FirstSyncDepth set) are accepted under either reading",
 		"the block hook decodes each block and names its chain link as the next segment's CID, as the segmented-sync API requires",
@@ -582,6 +594,10 @@ func historySweep(t *testing.T, r *vp.Recorder, thorough bool) {
 				for lat := 0; lat <= L-1; lat++ {
 					c := cfg{L: L, Entry: entry, H: L - 1, Latest: lat, LatestVia: "sync", Stop: -1, Seg: seg, Pre: all(lat)}
 					check(t, r, c)
+					// the same after the publisher's handler was removed
+					c.HandlerRemoved = true
+					check(t, r, c)
+					c.HandlerRemoved = false
 					if entry != "announce" {
 						c.Resync = true
 						check(t, r, c)
